@@ -7,7 +7,7 @@ from_index_mapping, __eq__; to_header/get_axis; img_save/img_load).  Theorems: c
 Case lines sent to bin/modelrun_c18 (grammar: coq/C18/driver.ml):
   resolve <n> <idx> | ser_get <ser> <idx> | ser_add <ser> <ser> | sc_get/lab_get/par_get <axis> <idx>
   sc_add/lab_add/par_add/bm_add <axis> <axis> | bm_get <bm> <idx> | bm_runs/bm_map/bm_rt <bm>
-  eq <axis> <axis> | header <k> <axis>*k | file <datashape> <k> <axis>*k
+  setext <exts> <xmlid> | eq <axis> <axis> | header <k> <axis>*k | file <datashape> <k> <axis>*k
 Every Python value the code only moves (names, metadata dicts, label tables, parcel voxel tables /
 vertex dicts, units) is interned to an integer by content, so a changed value gets a new id.
 
@@ -44,6 +44,18 @@ LOCAL_FINDINGS = {
 
 SCALE = 4          # affines and dyadic series values are sent to the model as integers * SCALE
 UNITS = ['SECOND', 'HERTZ', 'METER', 'RADIAN']
+
+
+MAX_REPLAYS = 25
+
+
+def viol(chk, *a, **k):
+    """chk.violation, but at most MAX_REPLAYS replay files per run (a broken operation fails on
+    thousands of cases); the rest is counted in the evidence"""
+    if len(chk.violations) < MAX_REPLAYS:
+        return chk.violation(*a, **k)
+    chk.extra['violations_without_replay_file'] = chk.extra.get('violations_without_replay_file', 0) + 1
+    return None
 
 
 # --------------------------------------------------------------------------- interning
@@ -564,7 +576,7 @@ def check_eq(R, a, b):
     want = type(a) is type(b) and ELEMS[kd(a)](a) == ELEMS[kd(b)](b) and anc(a) == anc(b)
     chk.count(key=('eq', axis_tok(a), axis_tok(b)), tag=f'eq:{kd(a)}:' + ('equal' if want else 'different'))
     if e1 != want or e2 != want:
-        chk.violation('property_violation', case=case, impl_output=f'a == b: {e1}, b == a: {e2}',
+        viol(chk, 'property_violation', case=case, impl_output=f'a == b: {e1}, b == a: {e2}',
                       predicate='== %s although the axes describe %s rows / spaces' %
                       ('holds' if e1 or e2 else 'fails', 'different' if not want else 'the same'))
 
@@ -607,8 +619,11 @@ def np_positions(n, ix):
     return [int(x) // 2 for x in rows[:, 0]]
 
 
-def known_or_violation(chk, fid, case, predicate, impl_output=None, model_output=None):
-    chk.known(fid, LOCAL_FINDINGS[fid])
+def known(chk, fid):
+    """report a structurally matched finding; text from known_findings.json when it is entered there"""
+    what = next((f['what'] for f in chk.findings if f['id'] == fid), LOCAL_FINDINGS[fid])
+    chk.known(fid, what)
+    chk.tagc('known:' + fid)
 
 
 def check_index(R, a, ix, tagp=''):
@@ -648,7 +663,7 @@ def check_index(R, a, ix, tagp=''):
             exp = 'ok ' + ('axis ' if k in 'BT' else '') + axis_out(r)
         except Exception as e:      # noqa: BLE001
             chk.count(tag=f'index:{k}:malformed')
-            chk.violation('property_violation', case=case, impl_output=f'{type(e).__name__}: {str(e)[:200]}',
+            viol(chk, 'property_violation', case=case, impl_output=f'{type(e).__name__}: {str(e)[:200]}',
                           predicate='axis[idx] is not a well-formed axis')
             return 'malformed'
     if exp is not None and not (k == 'T' and not isinstance(ix, (int, slice))):
@@ -665,8 +680,7 @@ def check_index(R, a, ix, tagp=''):
             chk.refusal('index_error')
     elif err is not None:
         if k == 'B' and not is_int and len(pos) == 0 and isinstance(err, ValueError) and 'vectorize' in str(err):
-            chk.known('S-C18b', LOCAL_FINDINGS['S-C18b'])
-            chk.tagc('known:S-C18b')
+            known(chk, 'S-C18b')
         else:
             pred = f'valid index refused: {type(err).__name__}: {str(err)[:80]}'
     elif is_int:
@@ -694,7 +708,7 @@ def check_index(R, a, ix, tagp=''):
         elif type(r) is not type(a):
             pred = 'axis[idx] changed class'
     if pred:
-        chk.violation('property_violation', case=case, predicate=pred,
+        viol(chk, 'property_violation', case=case, predicate=pred,
                       impl_output=('err ' + err_enum(err)) if err is not None else str(exp)[:300])
     return pred
 
@@ -711,7 +725,7 @@ def check_add(R, a, b):
     try:
         exp = 'err ' + err_enum(err) if err is not None else 'ok ' + axis_out(r)
     except Exception as e:          # noqa: BLE001
-        chk.violation('property_violation', case=case, impl_output=f'{type(e).__name__}: {str(e)[:200]}',
+        viol(chk, 'property_violation', case=case, impl_output=f'{type(e).__name__}: {str(e)[:200]}',
                       predicate='a + b is not a well-formed axis')
         return
     R.add('a', f'{ADDOP[k]} {TOK[k](a)} {TOK[k](b)}', exp, case)
@@ -748,7 +762,7 @@ def check_add(R, a, b):
         elif er != ea + eb:
             pred = 'a + b does not describe the concatenated rows'
     if pred:
-        chk.violation('property_violation', case=case, predicate=pred, impl_output=exp[:300])
+        viol(chk, 'property_violation', case=case, predicate=pred, impl_output=exp[:300])
 
 
 def parse_header(xml_bytes):
@@ -781,6 +795,19 @@ def fragile_strings(a):
     return out
 
 
+def stripped_elems(a):
+    """element descriptions of a Scalar/LabelAxis after what flush_chardata does to character data
+    (strip; an empty MapName element leaves map_name None -> 'None')"""
+    def nm(x):
+        return str(x).strip() or 'None'
+
+    def meta(m):
+        return tuple(sorted((k.strip(), v.strip()) for k, v in m))
+    if kd(a) == 'S':
+        return [(nm(n), meta(m)) for n, m in sc_elems(a)]
+    return [(nm(n), tuple((k, lab.strip(), col) for k, lab, col in l), meta(m)) for n, l, m in lab_elems(a)]
+
+
 def empty_label_table(a):
     return kd(a) == 'L' and any(len(l) == 0 for l in a.label)
 
@@ -797,7 +824,7 @@ def check_header(R, axes, data=None, via='xml', tag='header'):
     for a in axes:
         chk.tagc('roundtrip_axis:' + kd(a))
     pred = None
-    known = None
+    known_id = None
     out = {}
     try:
         with warnings.catch_warnings():
@@ -832,27 +859,27 @@ def check_header(R, axes, data=None, via='xml', tag='header'):
             chk.refusal('data_shape_mismatch')
             out['refused'] = 'datashape'
         elif isinstance(e, AttributeError) and any(empty_label_table(a) for a in axes):
-            known = 'S-C18d'
+            known_id = 'S-C18d'
         else:
             pred = 'round trip raised ' + out['error']
     if got is not None:
         bad = [i for i, (a, b) in enumerate(zip(axes, got)) if not axes_equal(a, b)]
         if bad:
-            if all(fragile_strings(axes[i]) for i in bad):
-                known = 'S-C18c'
+            if all(fragile_strings(axes[i]) and type(got[i]) is type(axes[i])
+                   and ELEMS[kd(got[i])](got[i]) == stripped_elems(axes[i]) for i in bad):
+                known_id = 'S-C18c'
             else:
                 pred = f'axis {bad[0]} read back differs from the axis written'
         elif data is not None and (data2.shape != data.shape or data2.dtype != data.dtype
                                    or data2.tobytes() != data.tobytes()):
             pred = 'data matrix read back differs'
         out['axes'] = [axis_tok(b) for b in got]
-    if known:
-        chk.known(known, LOCAL_FINDINGS[known])
-        chk.tagc('known:' + known)
+    if known_id:
+        known(chk, known_id)
     if pred:
-        chk.violation('property_violation', case=case, predicate=pred, impl_output=out)
+        viol(chk, 'property_violation', case=case, predicate=pred, impl_output=out)
     # correspondence with the model (only inside its quantifier: no fragile strings)
-    if not known and not any(fragile_strings(a) or empty_label_table(a) for a in axes):
+    if not known_id and not any(fragile_strings(a) or empty_label_table(a) for a in axes):
         toks = ' '.join(axis_tok(a) for a in axes)
         if via == 'xml':
             if got is not None:
@@ -873,6 +900,110 @@ def check_header(R, axes, data=None, via='xml', tag='header'):
     return pred
 
 
+def ext_list(nifti_header):
+    """[(code, interned content)] of a NIfTI header's extensions, in order"""
+    out = []
+    for e in nifti_header.extensions:
+        code = int(e.get_code())
+        out.append((code, INT('ext', bytes(e.content).rstrip(b'\0'))))   # on-disk padding NULs (C11)
+    return out
+
+
+def rand_data(rng, shape, dt):
+    n = int(np.prod(shape))
+    if np.issubdtype(dt, np.floating):
+        return np.array([rng.choice([rng.gauss(0, 100), rng.random(), 0.0, 1e30]) for _ in range(n)], dtype=dt).reshape(shape)
+    info = np.iinfo(dt)
+    return np.array([rng.randint(info.min, info.max) for _ in range(n)], dtype=dt).reshape(shape)
+
+
+def check_history(R, axes1, data1, axes2, data2, source, extra_ext, via):
+    """multi-step file history: img1 (axes1) is saved; img2 is a NEW image with axes2/data2 whose
+    nifti_header= comes from img1 after its save ('saved'), from img1 re-loaded ('loaded'), or is
+    img1 itself saved a second time unchanged ('same'); img2 is saved (twice) and loaded: the axes
+    read back must be axes2, the data data2, and the file must hold exactly one CIFTI-2 extension"""
+    from nibabel.cifti2 import Cifti2Image
+    from nibabel.cifti2.parse_cifti2 import Cifti2Extension
+    from nibabel.nifti1 import Nifti1Extension
+    chk = R.chk
+    case = {'op': 'history', 'source': source, 'via': via, 'extra_ext': extra_ext,
+            'axes1': [axis_desc(a) for a in axes1], 'axes2': [axis_desc(a) for a in axes2],
+            'data1': {'dtype': str(data1.dtype), 'shape': list(data1.shape), 'values': data1.ravel().tolist()},
+            'data2': {'dtype': str(data2.dtype), 'shape': list(data2.shape), 'values': data2.ravel().tolist()}}
+    chk.count(key=('history', source, via, extra_ext) + tuple(axis_tok(a) for a in axes1 + axes2),
+              tag=f'history:{source}:{via}' + (':other_ext' if extra_ext else ''),
+              sample=case if R.n % 40 == 7 else None)
+    pred = None
+    out = {}
+
+    def save_load(img, tag):
+        if via == 'bytes':
+            return Cifti2Image.from_bytes(img.to_bytes())
+        fn = os.path.join(chk.workdir, f'h{R.n}.{tag}.nii')
+        img.to_filename(fn)
+        r = Cifti2Image.from_filename(fn)
+        r = Cifti2Image(np.asanyarray(r.dataobj), r.header, r.nifti_header)    # detach from the file
+        os.remove(fn)
+        return r
+    try:
+        with warnings.catch_warnings():
+            warnings.simplefilter('ignore')
+            img1 = Cifti2Image(data1, axes1)
+            if extra_ext:
+                img1.nifti_header.extensions.append(Nifti1Extension(6, b'comment ' + bytes([65 + extra_ext])))
+            first = save_load(img1, 'a')
+            if source == 'same':
+                img2 = img1                       # saved again below, nothing replaced
+            else:
+                src = img1.nifti_header if source == 'saved' else first.nifti_header
+                img2 = Cifti2Image(data2, axes2, nifti_header=src, dtype=data2.dtype)
+            before = ext_list(img2.nifti_header)
+            xml2 = INT('ext', bytes(img2.header.to_xml()).rstrip(b'\0'))
+            got = []
+            for rep in range(2):
+                back = save_load(img2, 'b%d' % rep)
+                got.append(back)
+                if rep == 0:
+                    after = ext_list(img2.nifti_header)
+            out['before'], out['after'] = before, after
+    except Exception as e:          # noqa: BLE001
+        viol(chk, 'property_violation', case=case, impl_output=f'{type(e).__name__}: {str(e)[:200]}',
+             predicate='a save / load step of the history raised')
+        return
+    want_axes, want_data = (axes1, data1) if source == 'same' else (axes2, data2)
+    for rep, back in enumerate(got):
+        exts = ext_list(back.nifti_header)
+        ncif = sum(1 for e in back.nifti_header.extensions if isinstance(e, Cifti2Extension))
+        d = np.asanyarray(back.dataobj)
+        try:
+            axes_back = [back.header.get_axis(i) for i in range(len(want_axes))]
+        except Exception as e:      # noqa: BLE001
+            pred = f'save #{rep + 1}: axes cannot be read back: {type(e).__name__}: {str(e)[:80]}'
+            break
+        bad = [i for i, (a, b) in enumerate(zip(want_axes, axes_back)) if not axes_equal(a, b)]
+        if bad:
+            old = source != 'same' and len(axes1) > bad[0] and axes_equal(axes1[bad[0]], axes_back[bad[0]])
+            pred = f'save #{rep + 1}: axis {bad[0]} read back is not the axis of the image saved' + \
+                   (' (it is the axis of the image the NIfTI header was taken from)' if old else '')
+        elif d.shape != want_data.shape or d.dtype != want_data.dtype or d.tobytes() != want_data.tobytes():
+            pred = f'save #{rep + 1}: data read back differs'
+        elif ncif != 1:
+            pred = f'save #{rep + 1}: file holds {ncif} CIFTI-2 extensions'
+        elif [e for e in exts if e[0] != 32] != [e for e in before if e[0] != 32]:
+            pred = f'save #{rep + 1}: other NIfTI extensions changed'
+        if pred:
+            break
+        out['file_exts%d' % rep] = exts
+    if pred:
+        viol(chk, 'property_violation', case=case, predicate=pred, impl_output=out)
+    # correspondence: the extension list of the image's NIfTI header after to_file_map, and what the file holds
+    flat = lst(x for e in before for x in e)
+    # (a loaded Cifti2Extension re-serialises its parsed header, so file contents are compared through
+    # the axes in the predicate above; here: the extension list the writer was handed)
+    exp = 'ok ' + lst(x for e in after for x in e) + ' first=' + str(next((i for c, i in after if c == 32), '_'))
+    R.add('x', f'setext {flat} {xml2}', exp, case)
+
+
 def check_bm_structure(R, a):
     """iter_structures, to_mapping, from_index_mapping(to_mapping) against the model"""
     from nibabel.cifti2 import cifti2_axes as ax
@@ -885,7 +1016,7 @@ def check_bm_structure(R, a):
         mim = a.to_mapping(0)
         b = ax.BrainModelAxis.from_index_mapping(mim)
     except Exception as e:          # noqa: BLE001
-        chk.violation('property_violation', case=case, impl_output=f'{type(e).__name__}: {str(e)[:200]}',
+        viol(chk, 'property_violation', case=case, impl_output=f'{type(e).__name__}: {str(e)[:200]}',
                       predicate='iter_structures / to_mapping / from_index_mapping raised on a valid non-empty axis')
         return
     runs = ';'.join(f'{struct_id(nm)}:{sl.start}:{o2s(sl.stop)}' for nm, sl, _ in structs)
@@ -919,7 +1050,7 @@ def check_bm_structure(R, a):
     if pred is None and not axes_equal(a, b):
         pred = 'from_index_mapping(to_mapping(axis)) differs from the axis'
     if pred:
-        chk.violation('property_violation', case=case, predicate=pred, impl_output=bm_full(b)[:300])
+        viol(chk, 'property_violation', case=case, predicate=pred, impl_output=bm_full(b)[:300])
 
 
 def run(chk: Check):
@@ -938,7 +1069,7 @@ def run(chk: Check):
                 '(C) iter_structures / to_mapping / from_index_mapping of every brain-model axis; (D) a + b for '
                 'compatible and incompatible pairs; (I) constructor refusals, one structure as surface and as voxels; (H) == on perturbed copies; (E) 1-3 axes (with repeated, equal and near-equal axes) -> from_axes -> to_xml '
                 '-> Cifti2Parser -> get_axis; (F) Cifti2Image with random data (5 dtypes) through '
-                'to_bytes/from_bytes and .nii files; (G) probes of S-C18b/c/d. Non-trivial: the selection is not '
+                'to_bytes/from_bytes and .nii files; (J) file histories: img1 saved, then a NEW image with other axes/data and nifti_header= of the saved or re-loaded img1 (or img1 saved again unchanged), with other NIfTI extensions present, saved twice and loaded: axes/data of the image saved, exactly one CIFTI-2 extension; (G) probes of S-C18b/c/d. Non-trivial: the selection is not '
                 'the whole axis and not an error; distinct by (axis, index) / (axes tuple)')
     chk.assumptions = ['expat (Cifti2Parser), ElementTree (to_xml) and the NIfTI-2 container are exercised, not modelled: '
                        'the model takes the XML and the container as identity oracles (C18_file_roundtrip premises)',
@@ -998,7 +1129,7 @@ def run(chk: Check):
         try:
             parts = [gen_bm_part(rng, sp, st) for st in structs]
         except Exception as e:      # noqa: BLE001
-            chk.violation('property_violation', case={'op': 'factory', 'structs': structs},
+            viol(chk, 'property_violation', case={'op': 'factory', 'structs': structs},
                           predicate=f'from_surface / from_mask raised {type(e).__name__}: {str(e)[:100]}')
             continue
         acc = parts[0]
@@ -1017,12 +1148,12 @@ def run(chk: Check):
                                      for e in bm_elems(p2) if e[0] == 'S'})) for i, p2 in enumerate(parts)]
                 chk.count(key=('from_brain_models', par_tok(par)), tag='parcels_from_brain_models')
                 if par_elems(par)[:len(parts)] != want:
-                    chk.violation('property_violation', case={'op': 'from_brain_models', 'parts': [axis_desc(p2) for p2 in parts]},
+                    viol(chk, 'property_violation', case={'op': 'from_brain_models', 'parts': [axis_desc(p2) for p2 in parts]},
                                   predicate='ParcelsAxis.from_brain_models does not describe the brain models given',
                                   impl_output=str(par_elems(par))[:300])
                 check_header(R, [par, acc], via='xml')
             except Exception as e:  # noqa: BLE001
-                chk.violation('property_violation', case={'op': 'from_brain_models', 'parts': [axis_desc(p2) for p2 in parts]},
+                viol(chk, 'property_violation', case={'op': 'from_brain_models', 'parts': [axis_desc(p2) for p2 in parts]},
                               predicate=f'ParcelsAxis.from_brain_models raised {type(e).__name__}: {str(e)[:100]}')
     for _ in range(chk.n(200, 1500)):
         k = rng.choice('BBPPSLTT')
@@ -1078,7 +1209,7 @@ def run(chk: Check):
             vox = gen_part(rng, sp, VOL_STRUCTS[0])[1]
             b = ax.BrainModelAxis([st] * len(vox), np.array(vox), None, sp.affine, sp.shape, {})
         except Exception as e:      # noqa: BLE001
-            chk.violation('property_violation', case={'op': 'factory', 'structs': [st]},
+            viol(chk, 'property_violation', case={'op': 'factory', 'structs': [st]},
                           predicate=f'constructor raised {type(e).__name__}: {str(e)[:100]}')
             continue
         check_add(R, a, b)
@@ -1137,6 +1268,24 @@ def run(chk: Check):
         shape = (len(axes[0]) + 1, len(axes[1]))
         check_header(R, axes, data=np.zeros(shape, dtype=np.float32), via='bytes', tag='file_mismatch')
 
+    # ---------------- (J) multi-step file histories (NIfTI header reused across images / saves)
+    for i in range(chk.n(90, 700)):
+        nd = rng.choice([1, 2, 2, 3])
+        axes1 = pick_axes(nd)
+        r = rng.random()
+        if r < 0.35:          # same lengths, other axes (perturbed copies where possible)
+            axes2 = [perturb(rng, a) if rng.random() < 0.6 and kd(a) != 'T' else GEN[kd(a)](rng) for a in axes1]
+            axes2 = [b if len(b) == len(a) and len(b) > 0 else a2 for a, b, a2 in zip(axes1, axes2, axes1)]
+            if all(axes_equal(a, b) for a, b in zip(axes1, axes2)):
+                axes2 = pick_axes(nd)
+        else:
+            axes2 = pick_axes(rng.choice([nd, nd, rng.choice([1, 2, 3])]))
+        dt = rng.choice(dtypes)
+        data1 = rand_data(rng, tuple(len(a) for a in axes1), dt)
+        data2 = rand_data(rng, tuple(len(a) for a in axes2), dt if rng.random() < 0.6 else rng.choice(dtypes))
+        check_history(R, axes1, data1, axes2, data2, source=['saved', 'loaded', 'same'][i % 3],
+                      extra_ext=rng.choice([0, 0, 1, 2]), via='file' if i % 7 == 0 else 'bytes')
+
     # ---------------- (G) probes of the findings of this property (fixed inputs)
     sc_ws = ax.ScalarAxis(['a', ' b ', ''], [{}, {'k': ' v '}, {}])
     check_header(R, [sc_ws, ax.SeriesAxis(0, 1, 2)], via='xml', tag='probe')
@@ -1153,7 +1302,7 @@ def run(chk: Check):
             nspec_bad += 1
             chk.disagreements += 1
             if nspec_bad <= 3:
-                chk.violation('correspondence', case=case, model_output=got[:300], impl_output=exp[:300],
+                viol(chk, 'correspondence', case=case, model_output=got[:300], impl_output=exp[:300],
                               predicate='Model.resolve (the yardstick of the theorems) differs from np.arange(n)[idx]',
                               found_input=False, theorem='spec validation C18/Model.v resolve <-> NumPy')
     nbad = 0
@@ -1163,14 +1312,17 @@ def run(chk: Check):
             nbad += 1
             chk.disagreements += 1
             if nbad <= 5:
-                chk.violation('correspondence', case=case, model_output=got[:400], impl_output=exp[:400],
+                viol(chk, 'correspondence', case=case, model_output=got[:400], impl_output=exp[:400],
                               predicate='model and implementation disagree on ' + str(case.get('op')),
                               found_input=False, theorem='correspondence C18/Model.v <-> nibabel/cifti2/cifti2_axes.py')
     chk.extra['model_cases'] = len(R.lines)
     chk.extra['exhaustive_core_cases'] = n_exh
     chk.extra['unproved_statements'] = [
         'XML layer (Cifti2*._to_xml_element, Cifti2Parser/expat) and NIfTI-2 container are premises (Section '
-        'hypotheses) of C18_header_roundtrip / C18_file_roundtrip, not proved; tied by correspondence streams E/F',
+        'hypotheses) of C18_file_roundtrip, not proved; tied by correspondence streams E/F; the XML premise is '
+        'false for empty / whitespace-edged map names, metadata, label names (S-C18c) and empty label tables (S-C18d)',
+        'C18_index_describes_rows for BrainModelAxis holds only for non-empty selections (_partial); the empty '
+        'selection is refused: C18_index_describes_rows_brainmodel_refuted (S-C18b)',
         'to_mapping/from_index_mapping of Parcels/Scalar/Label/Series axes are modelled as the identity on interned '
         'element values (per-element re-packing), tied by correspondence stream E',
         'float arithmetic of SeriesAxis (start + k*step in binary64) is idealised to Z; generator uses multiples of 1/4',
@@ -1208,7 +1360,7 @@ def run(chk: Check):
     chk.vm = {'cases': ncase, 'disagreements': len(bad)}
     if bad:
         chk.disagreements += 1
-        chk.violation('correspondence', case={'vm_crosscheck': [pairs[b][1] if isinstance(b, int) and b < len(pairs) else b for b in bad]},
+        viol(chk, 'correspondence', case={'vm_crosscheck': [pairs[b][1] if isinstance(b, int) and b < len(pairs) else b for b in bad]},
                       predicate='implementation / extracted model disagree with vm_compute evaluation of the model',
                       found_input=False, theorem='extraction cross-check')
 
@@ -1238,6 +1390,11 @@ def replay(chk, obj):
         check_bm_structure(R, axis_from_desc(c['axis']))
     elif op == 'eq':
         check_eq(R, axis_from_desc(c['axis']), axis_from_desc(c['other']))
+    elif op == 'history':
+        def arr(d):
+            return np.array(d['values'], dtype=d['dtype']).reshape(d['shape'])
+        check_history(R, [axis_from_desc(d) for d in c['axes1']], arr(c['data1']),
+                      [axis_from_desc(d) for d in c['axes2']], arr(c['data2']), c['source'], c['extra_ext'], c['via'])
     else:
         data = None
         if 'data' in c:
